@@ -11,6 +11,7 @@ used twice); the documented order of ``match`` (first column ascending) is
 checked separately.  Selectors are re-implemented from their definitions.
 """
 
+import json
 import pickle
 from collections import Counter
 from functools import lru_cache
@@ -1518,15 +1519,26 @@ def st_alphabet_mismatch(tier):
             "base": base, "k": k, "refs": refs, "query": {"alph": qalph, "kind": qkind, "seq": query},
             "other": {"alph": oalph, "kind": okind, "seq": other}, "bucket": draw(st.booleans()),
             "explicit": draw(st.booleans()),
+            "generic_alphabet": draw(st.booleans()),
         }
 
     return gen()
 
 
-def _mm_seq(text, alph):
-    from biotite.sequence import GeneralSequence, LetterAlphabet
+_MM_GENERIC = [False]
 
-    return GeneralSequence(LetterAlphabet(alph), text)
+
+def _mm_alphabet(alph):
+    from biotite.sequence import Alphabet, LetterAlphabet
+
+    # generic Alphabet objects (symbols = one-letter strings) or LetterAlphabet objects
+    return Alphabet(list(alph)) if _MM_GENERIC[0] else LetterAlphabet(alph)
+
+
+def _mm_seq(text, alph):
+    from biotite.sequence import GeneralSequence
+
+    return GeneralSequence(_mm_alphabet(alph), list(text) if _MM_GENERIC[0] else text)
 
 
 def _mm_naive(query, refs, k):
@@ -1550,6 +1562,8 @@ def run_alphabet_mismatch(case):
 
     o = Outcome()
     base, k = case["base"], case["k"]
+    _MM_GENERIC[0] = bool(case.get("generic_alphabet"))
+    o.label("generic_Alphabet" if _MM_GENERIC[0] else "LetterAlphabet")
     Table = BucketKmerTable if case["bucket"] else KmerTable
     refs = case["refs"]
     ref_texts = [r["seq"] for r in refs]
@@ -1561,7 +1575,7 @@ def run_alphabet_mismatch(case):
     if case["explicit"]:
         table_alph = base
         fits = all(base.startswith(a) for a in alphs)
-        kwargs = {"alphabet": LetterAlphabet(base)}
+        kwargs = {"alphabet": _mm_alphabet(base)}
     else:
         longest = max(alphs, key=len)
         fits = all(longest.startswith(a) for a in alphs)
@@ -1616,6 +1630,27 @@ def run_alphabet_mismatch(case):
                 sorted(map(tuple, got.tolist())), want, "incompatible_alphabet_rejected",
                 f"match() accepted a query over {q['alph']!r} (table alphabet {real_alph!r}) and returned matches that are not the identical k-mers",
             )
+    # ---- a series of queries with short-lived alphabet objects of changing compatibility: the
+    # answer for one query must not depend on the queries made before
+    series = [real_alph[1:], real_alph, real_alph[::-1], real_alph[: max(2, len(real_alph) - 1)], real_alph[1:] + real_alph[:1], real_alph]
+    for qa in series:
+        if len(qa) < 1:
+            continue
+        text = "".join(ch for t in ref_texts for ch in t if ch in qa)[:10]
+        if len(text) < k:
+            text = (text + qa * k)[:k]
+        fits_now = real_alph.startswith(qa)
+        want_now = _mm_naive(text, ref_texts, k)
+        try:
+            got_now = table.match(_mm_seq(text, qa))
+        except ValueError:
+            o.check(not fits_now, "compatible_alphabets_accepted", f"query over {qa!r} (table alphabet {real_alph!r}) was rejected after earlier queries with other alphabets")
+            continue
+        o.check_eq(
+            sorted(map(tuple, got_now.tolist())), want_now,
+            "matches_exactly_identical_kmers" if fits_now else "incompatible_alphabet_rejected",
+            f"query {text!r} over {qa!r} in a series of queries, table alphabet {real_alph!r}",
+        )
     # ---- match_table(table over another alphabet)
     ot = case["other"]
     other_table = Table.from_sequences(k, [_mm_seq(ot["seq"], ot["alph"])], **bucket_kw)
@@ -1644,7 +1679,96 @@ def run_alphabet_mismatch(case):
     return o
 
 
+# --------------------------------------------------------------------------
+# an index restored by pickling in ANOTHER interpreter (other string-hash salt)
+# --------------------------------------------------------------------------
+_CHILD = r"""
+import json, pickle, sys
+from biotite.sequence import Alphabet, GeneralSequence, LetterAlphabet
+from biotite.sequence.align import BucketKmerTable, KmerTable
+job = pickle.loads(sys.stdin.buffer.read())
+def mk(alph, text):
+    a = Alphabet(list(alph)) if job["generic"] else LetterAlphabet(alph)
+    return GeneralSequence(a, list(text) if job["generic"] else text)
+Table = BucketKmerTable if job["bucket"] else KmerTable
+kw = {"n_buckets": 11} if job["bucket"] else {}
+restored = pickle.loads(job["table"])
+fresh = Table.from_sequences(job["k"], [mk(a, t) for a, t in job["refs"]], **kw)
+out = {"equal": bool(restored == fresh and fresh == restored)}
+try:
+    out["match_table"] = sorted(map(list, restored.match_table(fresh).tolist()))
+    out["match_table_fresh"] = sorted(map(list, fresh.match_table(fresh).tolist()))
+except Exception as e:
+    out["match_table_error"] = type(e).__name__ + ": " + str(e)
+out["match"] = sorted(map(list, restored.match(mk(*job["query"])).tolist()))
+sys.stdout.write(json.dumps(out))
+"""
+
+
+def st_pickle_cross(tier):
+    @st.composite
+    def gen(draw):
+        n = draw(st.integers(3, 6))
+        base = "".join(draw(st.lists(st.sampled_from(MM_LETTERS), min_size=n, max_size=n, unique=True)))
+        k = draw(st.sampled_from([2, 3]))
+        refs = [draw(st.text(base, min_size=k, max_size=12)) for _ in range(draw(st.integers(1, 3)))]
+        return {
+            "base": base, "k": k, "refs": refs, "query": draw(st.text(base, min_size=k, max_size=12)),
+            "bucket": draw(st.booleans()), "generic_alphabet": draw(st.booleans()),
+            "hashseed": draw(st.integers(1, 4_000_000)),
+        }
+
+    return gen()
+
+
+def run_pickle_cross(case):
+    import os
+    import subprocess
+    import sys
+
+    from biotite.sequence.align import BucketKmerTable, KmerTable
+
+    o = Outcome()
+    _MM_GENERIC[0] = bool(case["generic_alphabet"])
+    base, k = case["base"], case["k"]
+    Table = BucketKmerTable if case["bucket"] else KmerTable
+    kw = {"n_buckets": 11} if case["bucket"] else {}
+    table = Table.from_sequences(k, [_mm_seq(t, base) for t in case["refs"]], **kw)
+    # the usual in-process check first (it also makes the alphabets compare / hash themselves)
+    o.check(pickle.loads(pickle.dumps(table)) == table, "restored_by_pickling_equal", "in-process pickle round trip")
+    hash(table.alphabet)
+    job = {
+        "table": pickle.dumps(table), "k": k, "refs": [(base, t) for t in case["refs"]], "bucket": case["bucket"],
+        "generic": bool(case["generic_alphabet"]), "query": (base, case["query"]),
+    }
+    env = dict(os.environ)
+    env["PYTHONHASHSEED"] = str(case["hashseed"])
+    proc = subprocess.run([sys.executable, "-c", _CHILD], input=pickle.dumps(job), capture_output=True, env=env, timeout=120)
+    if proc.returncode != 0:
+        o.fail("restored_by_pickling_equal", f"the second interpreter failed: {proc.stderr.decode(errors='replace')[-600:]}")
+        return o
+    res = json.loads(proc.stdout.decode())
+    o.check(res["equal"], "restored_by_pickling_equal", "index restored in another interpreter != the same index built there")
+    o.check("match_table_error" not in res, "restored_by_pickling_equal", lambda: f"match_table of restored vs fresh index: {res.get('match_table_error')}")
+    if "match_table" in res:
+        o.check_eq(res["match_table"], res["match_table_fresh"], "restored_by_pickling_equal", "match_table(restored, fresh) vs match_table(fresh, fresh)")
+    want = [list(t) for t in _mm_naive(case["query"], case["refs"], k)]
+    o.check_eq(res["match"], want, "matches_exactly_identical_kmers", "match() on the index restored in another interpreter")
+    o.label("bucket" if case["bucket"] else "direct", "generic_Alphabet" if case["generic_alphabet"] else "LetterAlphabet")
+    o.mark_nontrivial(len(want) > 0)
+    return o
+
+
 SUBS = [
+    Sub(
+        "pickle_cross_process",
+        st_pickle_cross,
+        run_pickle_cross,
+        quick=24,
+        thorough=400,
+        rule="index pickled here and restored in a second interpreter with another PYTHONHASHSEED; >= 1 match",
+        clauses="restored by pickling: equal to the index built from the same sequences, same matches",
+    ),
     Sub(
         "alphabet_mismatch",
         st_alphabet_mismatch,
